@@ -18,6 +18,10 @@ def cases(tier, seed):
         yield dict(kind="mselin", seed=seed + s, depth=1 + s % 3)
         yield dict(kind="simple-leaf-mean", seed=seed + s, depth=1 + s % 3)
     yield dict(kind="simple-tree-vs-true-mse", seed=0)
+    # the text extracted from the .pyx files (what the proof reads) executed by CPython, against the compiled extension
+    for crit in ("fast", "slow"):
+        for s in range(3 if tier == "quick" else 8):
+            yield dict(kind="extracted-vs-compiled", crit=crit, seed=seed * 7 + s, n=4 + s)
 
 
 def wmean(y, w):
@@ -29,8 +33,67 @@ def wmse(y, w):
     return sum(b * (a - m) ** 2 for a, b in zip(y, w)) / sum(w)
 
 
+def _extracted(root):
+    """the Python-subset text of the three .pyx files (pyvc.pyxstrip), as modules of a throw-away package"""
+    import types
+    from pyvc.pyxstrip import strip
+    pkg = types.ModuleType("_px")
+    pkg.__path__ = []
+    sys.modules["_px"] = pkg
+    out = {}
+    for name in ("_piecewise_tree_regression_common", "piecewise_tree_regression_criterion", "piecewise_tree_regression_criterion_fast"):
+        st = strip(open(os.path.join(root, "mlinsights", "mlmodel", name + ".pyx")).read())
+        m = types.ModuleType("_px." + name)
+        m.__package__ = "_px"
+        sys.modules["_px." + name] = m
+        exec(compile(st.text, name + ".pyx", "exec"), m.__dict__)
+        out[name] = m
+    return out
+
+
 def check(c):
     from mlinsights.mlmodel import _piecewise_tree_regression_common as C
+    if c["kind"] == "extracted-vs-compiled":
+        import mlinsights
+        from mlinsights.mlmodel.piecewise_tree_regression_criterion import SimpleRegressorCriterion
+        from mlinsights.mlmodel.piecewise_tree_regression_criterion_fast import SimpleRegressorCriterionFast
+        ex = _extracted(os.path.dirname(os.path.dirname(mlinsights.__file__)))
+        n = c["n"]
+        rs = numpy.random.RandomState(c["seed"])
+        y = numpy.round(rs.randn(n) * 3, 2)
+        w = rs.randint(1, 5, n).astype(float)
+        samples = numpy.arange(n, dtype=numpy.intp)
+        rs.shuffle(samples)
+        comp_cls = SimpleRegressorCriterionFast if c["crit"] == "fast" else SimpleRegressorCriterion
+        ext_cls = (ex["piecewise_tree_regression_criterion_fast"].SimpleRegressorCriterionFast if c["crit"] == "fast"
+                   else ex["piecewise_tree_regression_criterion"].SimpleRegressorCriterion)
+        for start in range(0, n - 1):
+            for end in range(start + 2, n + 1):
+                a = comp_cls(1, n)
+                C._test_criterion_init(a, y.reshape(-1, 1).copy(), w.copy(), float(w.sum()), samples, start, end)
+                b = ext_cls(1, n)
+                rb = b.init(y.reshape(-1, 1).copy(), w.copy(), float(w.sum()), samples, start, end)
+                if rb != 0:
+                    return dict(**{"class": "extracted-vs-compiled"}, what="extracted init returns %r" % (rb,))
+                for pos in [None] + list(range(start + 1, end)):
+                    if pos is not None:
+                        C._test_criterion_update(a, pos)
+                        b.update(pos)
+                    va = C._test_criterion_node_value(a)
+                    vb = [0.0]
+                    b.node_value(vb)
+                    la, ra = C._test_criterion_node_impurity_children(a) if pos is not None else (0.0, 0.0)
+                    lb, rb2 = [0.0], [0.0]
+                    if pos is not None:
+                        b.children_impurity(lb, rb2)
+                    got = (va, C._test_criterion_node_impurity(a), la, ra, C._test_criterion_proxy_impurity_improvement(a) if pos is not None else 0.0,
+                           a.weighted_n_left if hasattr(a, "weighted_n_left") else None)
+                    exp = (vb[0], b.node_impurity(), lb[0], rb2[0], b.proxy_impurity_improvement() if pos is not None else 0.0, None)
+                    for name, x, e in zip(("node_value", "node_impurity", "left", "right", "proxy"), got, exp):
+                        if not (abs(x - e) <= 1e-9 * max(1.0, abs(e)) or (x != x and e != e)):
+                            return dict(**{"class": "extracted-vs-compiled"}, what="%s (start=%d,pos=%r,end=%d): compiled %s = %r, extracted text = %r" % (
+                                c["crit"], start, pos, end, name, x, e))
+        return None
     if c["kind"] == "criterion":
         from mlinsights.mlmodel.piecewise_tree_regression_criterion import SimpleRegressorCriterion
         from mlinsights.mlmodel.piecewise_tree_regression_criterion_fast import SimpleRegressorCriterionFast
